@@ -198,6 +198,23 @@ PROPS = {
                      'shared default arguments: linearCompositions is verified from both states of its default group list (fresh, already filled by an earlier call)'],
         design_ref='2 / C15',
     ),
+    'C17': dict(
+        level='other',
+        functions=[SEQ + f for f in ('__init__', 'swapRes', 'swapRandChargeRes', 'full_shuffle')] +
+                  [SP + f for f in ('__init__#seqobj', 'get_shuffled_sequence')] + ['localcider/sequencePermutants.py:SequencePermutants.get_permutant'],
+        lemmas=['nmov_strict', 'nmov_nonneg', 'nmov_mono', 'nmov_nonneg_all'],
+        native='c17',
+        explanation='proved for all sequences, all frozen sets and ALL outcomes of the internal random choices (random.Random methods return fresh values constrained only by the library contract): '
+                    'swapRes returns the transposition of the two positions; swapRandChargeRes returns the object itself or a transposition of two NON-frozen positions and never raises; '
+                    'full_shuffle keeps every frozen position and gives every other position the residue of a non-frozen source position taken from a duplicate-free shuffled enumeration (pop never hits an empty list); '
+                    'every child satisfies the class invariant (length, charge pattern of ITS sequence), carries -1 or the parent\'s delta-max, and the parent object is unchanged (frame). '
+                    'NOT under contract: permute_block_swap and permute_cluster_charges (slice assignment / retry loops whose termination is probabilistic) - bounded native runs with tape-driven RNG; '
+                    'they ignore `frozen` (defect D8, known finding)',
+        assumptions=['"is a rearrangement": proved in witness form (child = parent composed with an index map: transposition / frozen-identity + duplicate-free sources); that an injective self-map of [0,N) preserves all letter counts is Lean lemma perm_counts (/verif/lemmas/Perm.lean), the injectivity of the full_shuffle map is argued from the proved facts (duplicate-free enumeration, strictly increasing count of movable positions), not mechanised',
+                     'random.Random, list(set), sorted(set), len(set), set difference: trusted library models (DESIGN 1.4)',
+                     'carried delta-max equals the fresh value because delta-max is composition-only (C03) and a rearrangement keeps the composition'],
+        design_ref='2 / C17',
+    ),
 }
 
 _BOUNDED_ONLY = ('deductive contracts for this property are not yet discharged in this build: the claim rests on the bounded native '
